@@ -1,4 +1,5 @@
 import PtVerif.Proofs.NeutronInvariance
+import PtVerif.Model.NeutronD2O
 /-!
 # C16: the solute SLD is that of the compound with substituted labile hydrogen
 
